@@ -18,7 +18,7 @@ VALUES = ('values',)
 _ids = itertools.count(1)
 
 STR_KINDS = ('str', 'cat', 'join', 'fmt', 'fmt1', 'rep')
-LIST_KINDS = ('seq', 'values', 'map', 'lit', 'concat', 'range', 'series', 'slice', 'zipstar')
+LIST_KINDS = ('seq', 'values', 'map', 'lit', 'concat', 'range', 'series', 'slice', 'zipstar', 'attr')
 
 
 def fresh():
@@ -97,7 +97,47 @@ def index(lst, i):
         return index(lst[1], i)
     if lst[0] == 'lit' and i[0] == 'int' and 0 <= i[1] < len(lst[1]):
         return lst[1][i[1]]
+    if lst[0] == 'attr':
+        return ('idx', lst, i)
+    if lst[0] == 'range' and lst[1] == ('int', 0):
+        return i
     return ('opaque', 'index')
+
+
+def mk_len(lst):
+    if lst[0] == 'map':
+        return mk_len(lst[3])
+    if lst[0] == 'range' and lst[1] == ('int', 0):
+        return lst[2]
+    if lst[0] == 'lit':
+        return ('int', len(lst[1]))
+    return ('len', lst)
+
+
+def canon_index(t):
+    """iteration over a list that is not a range becomes iteration over its index range (so `for x in L`, `for i in
+    range(len(L))`, enumerate(L) and zip(L, M) have one form)"""
+    if not isinstance(t, tuple) or not t:
+        return t
+    if t[0] in ('map', 'rep', 'lines') and len(t) == 4:
+        var, body, src = t[1], t[2], t[3]
+        src = canon_index(src)
+        body = canon_index(body)
+        if src[0] != 'range' and src[0] in LIST_KINDS:
+            i = fresh()
+            n = mk_len(src)
+            return (t[0], i, canon_index(subst(body, var, index(src, i))), ('range', ('int', 0), n))
+        return (t[0], var, body, src)
+    out = tuple(canon_index(x) for x in t)
+    if out[0] == 'cat':
+        return cat(list(out[1]))
+    return out
+
+
+def rep_parts(t):
+    """the parts of a `rep` body as a flat tuple"""
+    c = cat(list(t[2]))
+    return c[1] if c[0] == 'cat' else (c,)
 
 
 def minlen_canon(t):
@@ -183,6 +223,8 @@ def show(t, names=None):
         return str(t[1])
     if k == 'param':
         return t[1]
+    if k == 'attr':
+        return 'self.' + t[1]
     if k == 'seq':
         return 'COLUMNS'
     if k == 'values':
@@ -198,7 +240,7 @@ def show(t, names=None):
     if k in ('map',):
         return '[%s for %s in %s]' % (show(t[2], names), nm(t[1]), show(t[3], names))
     if k == 'rep':
-        return "''.join(%s for %s in %s)" % (show(t[2], names), nm(t[1]), show(t[3], names))
+        return "''.join(%s for %s in %s)" % (' + '.join(show(p, names) for p in rep_parts(t)), nm(t[1]), show(t[3], names))
     if k == 'lit':
         return '[%s]' % ', '.join(show(e, names) for e in t[1])
     if k == 'concat':
@@ -234,10 +276,33 @@ class Unsupported(Exception):
     pass
 
 
-class TableEval(object):
-    def __init__(self, fnode, helper_name, fmt_params):
-        self.fn, self.helper, self.fmt_params = fnode, helper_name, fmt_params
+def lhs_key(t):
+    if isinstance(t, ast.Name):
+        return t.id
+    if isinstance(t, ast.Attribute) and isinstance(t.value, ast.Name) and t.value.id == 'self':
+        return 'self.' + t.attr
+    return None
+
+
+class TermEval(object):
+    """generic evaluator; `self.X` is a list source ('attr', X) unless the function assigned it before"""
+    helper = None
+
+    def __init__(self, fnode):
+        self.fn = fnode
         self.returns = []       # (term, assumptions, line)
+        self.finals = []        # environments at the end of paths that fall off the end
+
+    def bind_target(self, target, value, env):
+        if isinstance(target, ast.Name):
+            env[target.id] = value
+            return True
+        if isinstance(target, (ast.Tuple, ast.List)):
+            for k, el in enumerate(target.elts):
+                if not self.bind_target(el, ('idx', value, ('int', k)) if value[0] in ('var', 'idx') else index(value, ('int', k)), env):
+                    return False
+            return True
+        return False
 
     # ---- expressions -------------------------------------------------------------------------------
     def ev(self, e, env):
@@ -251,11 +316,14 @@ class TableEval(object):
             if e.id in env:
                 return env[e.id]
             return ('opaque', e.id)
+        if lhs_key(e) is not None and isinstance(e, ast.Attribute):
+            return env.get(lhs_key(e), ('attr', e.attr))
         if isinstance(e, (ast.List, ast.Tuple)):
             return ('lit', tuple(self.ev(x, env) for x in e.elts))
         if isinstance(e, ast.Subscript):
-            if unparse(e.value) == 'self' and not isinstance(e.slice, ast.Slice):
-                return ('series', self.ev(e.slice, env))
+            r = self.source_subscript(e, env)
+            if r is not None:
+                return r
             base = self.ev(e.value, env)
             if isinstance(e.slice, ast.Slice):
                 if e.slice.step is not None:
@@ -273,7 +341,7 @@ class TableEval(object):
                 return ('idx', base, i)       # settled when the variable is replaced by what it ranges over
             return ('opaque', unparse(e))
         if isinstance(e, (ast.ListComp, ast.GeneratorExp)):
-            if len(e.generators) != 1 or e.generators[0].ifs or not isinstance(e.generators[0].target, ast.Name):
+            if len(e.generators) != 1 or e.generators[0].ifs:
                 return ('opaque', unparse(e)[:80])
             gen = e.generators[0]
             src = self.ev(gen.iter, env)
@@ -281,7 +349,8 @@ class TableEval(object):
                 return ('opaque', unparse(e)[:80])
             v = fresh()
             env2 = dict(env)
-            env2[gen.target.id] = v
+            if not self.bind_target(gen.target, v, env2):
+                return ('opaque', unparse(e)[:80])
             return mk_map(v, self.ev(e.elt, env2), src)
         if isinstance(e, ast.BinOp) and isinstance(e.op, ast.Add):
             a, b = self.ev(e.left, env), self.ev(e.right, env)
@@ -289,6 +358,16 @@ class TableEval(object):
                 return cat([a, b])
             if a[0] in LIST_KINDS and b[0] in LIST_KINDS:
                 return concat([a, b])
+            if (a[0] in STR_KINDS and b[0] in ('var', 'idx', 'cell', 'opaque', 'param')) or \
+                    (b[0] in STR_KINDS and a[0] in ('var', 'idx', 'cell', 'opaque', 'param')):
+                return cat([a, b])       # an element added to text is text
+            return ('opaque', unparse(e)[:80])
+        if isinstance(e, ast.BinOp) and isinstance(e.op, ast.Mult):
+            a, b = self.ev(e.left, env), self.ev(e.right, env)
+            if a[0] == 'str' and b[0] == 'int':
+                return ('str', a[1] * b[1])
+            if a[0] == 'int' and b[0] == 'str':
+                return ('str', a[1] * b[1])
             return ('opaque', unparse(e)[:80])
         if isinstance(e, ast.BinOp) and isinstance(e.op, ast.Mod):
             f = self.ev(e.left, env)
@@ -297,14 +376,25 @@ class TableEval(object):
             return ('fmt1', f, self.ev(e.right, env))
         if isinstance(e, ast.Call):
             nm = call_name(e)
-            if nm == self.helper and isinstance(e.func, ast.Attribute) and unparse(e.func.value) == 'self' and not e.args:
-                return SEQ
-            if nm == 'values' and isinstance(e.func, ast.Attribute) and unparse(e.func.value) == 'self' and not e.args:
-                return VALUES
+            r = self.source_call(e, nm, env)
+            if r is not None:
+                return r
+            if nm == 'enumerate' and len(e.args) == 1 and not e.keywords:
+                lst = self.ev(e.args[0], env)
+                if lst[0] in LIST_KINDS:
+                    i = fresh()
+                    return ('map', i, ('lit', (i, index(lst, i))), ('range', ('int', 0), mk_len(lst)))
+            if nm == 'zip' and len(e.args) == 2 and not e.keywords and not any(isinstance(a, ast.Starred) for a in e.args):
+                la, lb = self.ev(e.args[0], env), self.ev(e.args[1], env)
+                if la[0] in LIST_KINDS and lb[0] in LIST_KINDS:
+                    i = fresh()
+                    na, nb = mk_len(la), mk_len(lb)
+                    return ('map', i, ('lit', (index(la, i), index(lb, i))), ('range', ('int', 0), na if na == nb else ('min2', na, nb)))
             if nm in ('list', 'tuple') and len(e.args) == 1 and not e.keywords:
                 return self.ev(e.args[0], env)
             if nm == 'len' and len(e.args) == 1:
-                return ('len', self.ev(e.args[0], env))
+                a = self.ev(e.args[0], env)
+                return mk_len(a) if a[0] in LIST_KINDS else ('len', a)
             if nm == 'min' and len(e.args) == 1 and not e.keywords:
                 return minlen_canon(('min', self.ev(e.args[0], env)))
             if nm == 'range' and 1 <= len(e.args) <= 2 and not e.keywords:
@@ -326,35 +416,41 @@ class TableEval(object):
             for n in ast.walk(s):
                 if isinstance(n, ast.Name) and isinstance(n.ctx, ast.Store):
                     out.add(n.id)
-                if isinstance(n, ast.Call) and isinstance(n.func, ast.Attribute) and isinstance(n.func.value, ast.Name) and \
+                if isinstance(n, ast.Attribute) and isinstance(n.ctx, ast.Store) and lhs_key(n) is not None:
+                    out.add(lhs_key(n))
+                if isinstance(n, ast.Call) and isinstance(n.func, ast.Attribute) and lhs_key(n.func.value) is not None and \
                         n.func.attr in ('append', 'extend', 'insert', 'pop', 'remove', 'sort', 'reverse', 'clear'):
-                    out.add(n.func.value.id)
+                    out.add(lhs_key(n.func.value))
         return out
 
     def simple(self, s, env):
         """straight-line statement -> True when handled"""
-        if isinstance(s, ast.Assign) and len(s.targets) == 1 and isinstance(s.targets[0], ast.Name):
-            env[s.targets[0].id] = self.ev(s.value, env)
+        if isinstance(s, ast.Assign) and all(lhs_key(t) is not None for t in s.targets):
+            v = self.ev(s.value, env)
+            for t in s.targets:
+                env[lhs_key(t)] = v
             return True
         if isinstance(s, ast.Assign):
             for n in ast.walk(s):
                 if isinstance(n, ast.Name) and isinstance(n.ctx, ast.Store):
                     env[n.id] = ('opaque', n.id)
-            return True      # stores into attributes / subscripts do not change the text (C16 judges them)
-        if isinstance(s, ast.AugAssign) and isinstance(s.target, ast.Name) and isinstance(s.op, ast.Add):
-            cur, add = env.get(s.target.id, ('opaque', s.target.id)), self.ev(s.value, env)
+            return True      # stores into other attributes / subscripts do not change the text (C16 judges them)
+        if isinstance(s, ast.AugAssign) and lhs_key(s.target) is not None and isinstance(s.op, ast.Add):
+            key = lhs_key(s.target)
+            cur = env.get(key, ('attr', key[5:]) if key.startswith('self.') else ('opaque', key))
+            add = self.ev(s.value, env)
             if cur[0] in STR_KINDS and add[0] in STR_KINDS:
-                env[s.target.id] = cat([cur, add])
+                env[key] = cat([cur, add])
             elif cur[0] in LIST_KINDS and add[0] in LIST_KINDS:
-                env[s.target.id] = concat([cur, add])
+                env[key] = concat([cur, add])
             else:
-                env[s.target.id] = ('opaque', unparse(s)[:80])
+                env[key] = ('opaque', unparse(s)[:80])
             return True
         if isinstance(s, ast.Expr) and isinstance(s.value, ast.Constant):
             return True
         if isinstance(s, ast.Expr) and isinstance(s.value, ast.Call) and isinstance(s.value.func, ast.Attribute) and \
-                isinstance(s.value.func.value, ast.Name) and s.value.func.value.id in env:
-            lst, m = s.value.func.value.id, s.value.func.attr
+                lhs_key(s.value.func.value) is not None and lhs_key(s.value.func.value) in env:
+            lst, m = lhs_key(s.value.func.value), s.value.func.attr
             cur = env[lst]
             if m == 'append' and len(s.value.args) == 1 and cur[0] in LIST_KINDS:
                 env[lst] = concat([cur, ('lit', (self.ev(s.value.args[0], env),))])
@@ -373,8 +469,9 @@ class TableEval(object):
     def loop(self, s, env):
         """for v in SRC: body  ->  every accumulator X becomes  X0 (+) flatmap(v, delta, SRC)"""
         mod = self.assigned(s.body)
-        if not isinstance(s.target, ast.Name) or s.orelse:
-            raise Unsupported('loop target')
+        if s.orelse:
+            raise Unsupported('loop with else')
+        tnames = {n.id for n in ast.walk(s.target) if isinstance(n, ast.Name)}
         src = self.ev(s.iter, env)
         if src[0] not in LIST_KINDS:
             raise Unsupported('loop source `%s`' % unparse(s.iter)[:60])
@@ -382,7 +479,7 @@ class TableEval(object):
         marks = {}
         env2 = dict(env)
         for x in mod:
-            if x in env and x != s.target.id:
+            if x in env and x not in tnames:
                 cur = env[x]
                 if cur[0] in STR_KINDS:
                     marks[x] = ('str', '\x00ACC:%s\x00' % x)
@@ -390,14 +487,15 @@ class TableEval(object):
                     marks[x] = ('lit', (('opaque', '\x00ACC:%s' % x),))
                 if x in marks:
                     env2[x] = marks[x]
-        env2[s.target.id] = v
+        if not self.bind_target(s.target, v, env2):
+            raise Unsupported('loop target')
         for st in s.body:
             if isinstance(st, ast.For):
                 self.loop(st, env2)
             elif not self.simple(st, env2):
                 raise Unsupported('statement `%s` inside a loop' % unparse(st)[:60])
         for x in mod:
-            if x == s.target.id:
+            if x in tnames:
                 continue
             if x not in marks:
                 env[x] = ('opaque', 'loop-local ' + x)       # defined inside the loop only
@@ -431,7 +529,8 @@ class TableEval(object):
                     pass
                 else:
                     env[x] = ('opaque', 'several appends per iteration to ' + x)
-        env[s.target.id] = ('opaque', 'loop variable after the loop')
+        for x in tnames:
+            env[x] = ('opaque', 'loop variable after the loop')
 
     def block(self, stmts, env, assum):
         for i, s in enumerate(stmts):
@@ -464,6 +563,13 @@ class TableEval(object):
                     if isinstance(n, ast.Return):
                         self.returns.append((('opaque', 'return inside `%s`' % type(s).__name__), dict(assum), n.lineno))
         self.returns.append((('opaque', 'None'), dict(assum), getattr(self.fn, 'end_lineno', self.fn.lineno)))
+        self.finals.append((env, dict(assum)))
+
+    def source_call(self, e, nm, env):
+        return None
+
+    def source_subscript(self, e, env):
+        return None
 
     def emptiness(self, t, env):
         """True when `t` holds iff the column sequence is empty, False when iff non-empty, None otherwise"""
@@ -487,6 +593,26 @@ class TableEval(object):
             env[p] = ('param', p)
         self.block(list(self.fn.body), env, {})
         return self.returns
+
+
+class TableEval(TermEval):
+    """the series holder: `self.<helper>()` is the column sequence, self[name] a stored series, self.values() all of them"""
+
+    def __init__(self, fnode, helper_name, fmt_params):
+        TermEval.__init__(self, fnode)
+        self.helper, self.fmt_params = helper_name, fmt_params
+
+    def source_call(self, e, nm, env):
+        if nm == self.helper and isinstance(e.func, ast.Attribute) and unparse(e.func.value) == 'self' and not e.args:
+            return SEQ
+        if nm == 'values' and isinstance(e.func, ast.Attribute) and unparse(e.func.value) == 'self' and not e.args:
+            return VALUES
+        return None
+
+    def source_subscript(self, e, env):
+        if unparse(e.value) == 'self' and not isinstance(e.slice, ast.Slice):
+            return ('series', self.ev(e.slice, env))
+        return None
 
 
 def line_groups(t):
